@@ -251,7 +251,7 @@ Section Tot.
     intros tok st2 Hi2 Hm2 Hs2 (Hp & _).
     destruct (negb (t_typ tok =? TInt) && negb (t_typ tok =? TFloat)) eqn:E.
     - apply wp_fail. exact Hp.
-    - destruct (parse_float (t_txt tok)). 2: { apply wp_fail. exact Hp. }
+    - destruct (int_of_token (t_typ tok =? TInt) neg (t_txt tok)). 2: { apply wp_fail. exact Hp. }
       apply wp_ret. specialize (Hs2 (num_ne _ E)). fin.
   Qed.
 
